@@ -95,3 +95,15 @@ Theorem C01_removed_entry_through_device : forall s c es0 p s' ch,
     search_entry (remove_first p (map canon es0)) m = search_entry (map canon es0) m.
 Proof. exact removed_entry_through_device. Qed.
 Print Assumptions C01_removed_entry_through_device.
+
+(** ... and with the hint invariant (Proofs/Hint.v: no free in-range cluster below the hint; it holds after mount and is kept by
+    allocation, release and linking, see C09) the criterion counts the free clusters of the WHOLE table: a request is refused if
+    and only if the volume has fewer free clusters than it needs — never while enough exist (C01-m10 left the hint at the end of
+    the table after one refused request; in the model a refused allocation returns no state). *)
+From PyFatV Require Import Proofs.Hint.
+Theorem C01_space_total : forall s size erase,
+  s_ro s = false -> 0 <= s_hint s <= lenZ (s_fat s) -> hint_inv s -> 0 <= Gen.calc_num_clusters (s_p s) size ->
+  (allocate s size erase = Err ENOSPC <->
+   (count_free (s_fat s) (ft s) (max_cluster s) (length (s_fat s)) 0 < Z.to_nat (Gen.calc_num_clusters (s_p s) size))%nat).
+Proof. exact allocate_enospc_total. Qed.
+Print Assumptions C01_space_total.
